@@ -22,12 +22,15 @@ RULE = ('accepted texts over a fixed schema x every item boundary at every depth
         'values-only tree hash must equal the uninserted run and no diagnostic may appear (a third of the insertions carry a comment of their own and are parsed with annotation support on: then values and annotations together must equal the uninserted run); without the flag the same text must be rejected with a diagnostic. A nesting ladder of unknown '
         'sections 10^2..10^5 deep bounds the stack. non-trivial: the inserted item is a list, call or section; distinct = (text, insertion point, item)')
 
-NAMES = ['u', 'unk', 'x_new', 'zz9', 'future.opt', 'x', 'y', 'z']      # x/y/z are known only at other levels
+NAMES = ['u', 'unk', 'x_new', 'zz9', 'future.opt', 'x', 'y', 'z',      # x/y/z are known only at other levels
+         'unk|opt', 'u=1|v', 'zz|', 'new=t|k|l']                        # names that look like paths (into nothing that is declared)
 VALS = ['1', 'abc', '"q s"', "'sq'", '3.5', 'true', '"br{ace}"', '"}"', '"{"', '"a,b"', '")"', '${VERIF_C12_UNSET:-dd}', '""']
 
 
 def unk_item(rng, depth=0, level_names=()):
     name = rng.choice([n for n in NAMES if n not in level_names] or ['u'])
+    if '=' in name:
+        name = '"%s"' % name        # (a bare '=' would end the word)
     r = rng.random()
     val = lambda: rng.choice(VALS)
     lst = lambda: '{' + ', '.join(val() for _ in range(rng.randint(0, 3))) + '}'
